@@ -3,7 +3,8 @@
 Real code executed symbolically: structs / rust_struct (derive list, repr, panics) and create_shader_module_inner (non-
 interference of the options with the rest of the output).
 Symbolic: the four derive switches, the representation; struct roles are covered by a template holding every role:
-host-only, vertex-only, vertex + host, fragment input, runtime-array-terminated host struct.
+host-only, vertex-only, vertex + host, fragment input, runtime-array-terminated host struct, vertex input that is also the
+type of a private variable, struct of a workgroup variable.
 """
 import z3
 from harness.common import *
@@ -18,6 +19,10 @@ struct VsOut { @builtin(position) pos: vec4<f32>, @location(0) c: vec4<f32> }
 struct BigArr { n: u32, data: array<vec4<f32>, 7> }
 struct Inst2 { @location(5) p: vec4<f32>, @location(6) q: vec4<f32> }
 struct Scene { fallback: Inst2, exposure: f32, gamma: f32 }
+struct PrivIn { @location(9) p: vec4<f32>, @location(10) s: f32 }
+struct WgOnly { k: u32, l: vec2<u32> }
+var<private> stash: PrivIn;
+var<workgroup> wg: WgOnly;
 @group(0) @binding(4) var<uniform> scene: Scene;
 @group(0) @binding(3) var<uniform> bigarr: BigArr;
 @group(0) @binding(0) var<uniform> host: HostOnly;
@@ -25,7 +30,7 @@ struct Scene { fallback: Inst2, exposure: f32, gamma: f32 }
 const K: u32 = 3u;
 override scale: f32 = 1.0;
 var<push_constant> pc: vec4<f32>;
-@vertex fn vs(a: VertexOnly, b: Both, c: Inst2) -> VsOut { var o: VsOut; o.pos = a.p; return o; }
+@vertex fn vs(a: VertexOnly, b: Both, c: Inst2, d: PrivIn) -> VsOut { var o: VsOut; o.pos = a.p; return o; }
 @fragment fn fs(i: FragIn) -> @location(0) vec4<f32> { return i.c * host.x * pc.x; }
 @compute @workgroup_size(2) fn cs() {}
 '''
@@ -33,7 +38,8 @@ SRC_RT = SRC_NO_RT + '''struct RtHost { n: u32, data: array<vec4<f32>> }
 @group(0) @binding(2) var<storage, read> rt: RtHost;
 '''
 ROLES = {'Inner': ('host', False), 'HostOnly': ('host', False), 'VertexOnly': ('vertex', False), 'Both': ('host', False),
-         'FragIn': ('other', False), 'RtHost': ('host', True), 'BigArr': ('host', False), 'Inst2': ('host', False), 'Scene': ('host', False)}
+         'FragIn': ('other', False), 'RtHost': ('host', True), 'BigArr': ('host', False), 'Inst2': ('host', False), 'Scene': ('host', False),
+         'PrivIn': ('host', False), 'WgOnly': ('host', False)}        # reachable from a module-scope variable of ANY address space
 
 
 def expected_derives(role, rt, o):
